@@ -417,7 +417,11 @@ fn run_case(case: &Value, rep: &mut Report, trace_out: &mut Vec<String>, settle_
         // contiguous windows: events of pool threads between two steps belong to the next step
         let mut mark = cursor;
         let mut hang: Option<String> = None;
+        // oracle pass: the extra polls may have completed an operation earlier than the schedule assumes; a
+        // step on an operation whose key is already gone is moot then
+        let act = if settle_mode && matches!(act, "pop" | "cancel" | "token" | "keydrop") && ctx.ops[oi].key.is_none() { "skip" } else { act };
         match act {
+            "skip" => {}
             "push" => {
                 let d = driver.as_mut().unwrap();
                 let kind = ctx.ops[oi].kind.clone();
@@ -545,7 +549,7 @@ fn run_case(case: &Value, rep: &mut Report, trace_out: &mut Vec<String>, settle_
                 }
             }
             "kmore" => {
-                let p = ctx.ops[oi].sock_path.clone().expect("listener");
+                let p = ctx.ops[oi].sock_path.clone().expect("harness: listener");
                 // in the oracle pass (settle) the extra polls may already have completed the operation: the
                 // listener is gone then and the schedule step is moot
                 match UnixStream::connect(&p) {
@@ -607,7 +611,7 @@ fn run_case(case: &Value, rep: &mut Report, trace_out: &mut Vec<String>, settle_
             "pop" => {
                 let d = driver.as_mut().unwrap();
                 hev("h.htake", oi, 0);
-                let key = ctx.ops[oi].key.take().expect("pop without key");
+                let key = ctx.ops[oi].key.take().expect("harness: pop without key");
                 let cancel_req = ctx.ops[oi].cancel_requested;
                 let pid = ctx.ops[oi].pipe;
                 let back = match key {
@@ -701,7 +705,7 @@ fn run_case(case: &Value, rep: &mut Report, trace_out: &mut Vec<String>, settle_
                 hev("h.htake", oi, 0);
                 ctx.ops[oi].cancel_requested = true;
                 let pid = ctx.ops[oi].pipe;
-                match ctx.ops[oi].key.take().expect("cancel without key") {
+                match ctx.ops[oi].key.take().expect("harness: cancel without key") {
                     AnyKey::Read(k) => {
                         if let Some(BufResult(res, op)) = d.cancel(k) {
                             use compio_buf::IntoInner;
@@ -751,7 +755,7 @@ fn run_case(case: &Value, rep: &mut Report, trace_out: &mut Vec<String>, settle_
             }
             "token" => {
                 let d = driver.as_mut().unwrap();
-                let t = match ctx.ops[oi].key.as_ref().expect("token without key") {
+                let t = match ctx.ops[oi].key.as_ref().expect("harness: token without key") {
                     AnyKey::Read(k) => d.register_cancel(k),
                     AnyKey::Acc(k) => d.register_cancel(k),
                     AnyKey::Blk(k) => d.register_cancel(k),
@@ -929,7 +933,11 @@ fn main() {
         eprintln!("CASE {idx}");
         let r = std::panic::catch_unwind(std::panic::AssertUnwindSafe(|| run_case(&case, &mut rep, &mut trace, settle_mode, &pool)));
         if let Err(e) = r {
-            rep.problem("panic", json!({"site": case.get("driver").and_then(|d| d.as_str()).unwrap_or("iour"), "action": "replay"}), format!("panic during replay: {}", panic_msg(e)), &case, 0);
+            let msg = panic_msg(e);
+            // a panic of the harness' own bookkeeping means the schedule no longer fits the code (drift), a panic
+            // out of the code under test is a finding
+            let ty = if msg.starts_with("harness:") { "mismatch" } else { "panic" };
+            rep.problem(ty, json!({"site": case.get("driver").and_then(|d| d.as_str()).unwrap_or("iour"), "action": "replay"}), format!("panic during replay: {msg}"), &case, 0);
         }
         rep.cases += 1;
     }
